@@ -339,7 +339,180 @@ def _smp_cut_inverted():
     sh._check_in_b = f
 
 
+def _vol_circle_bd():
+    import numpy as np
+    from torchphysics.problem.domains.domain2D.circle import CircleBoundary
+    from torchphysics.problem.spaces import Points
+    CircleBoundary._get_volume = lambda self, params=Points.empty(), device="cpu": (np.pi * self.domain.radius(params, device=device)).reshape(-1, 1)
+
+
+def _vol_tri_nohalf():
+    import torch
+    from torchphysics.problem.domains.domain2D.triangle import Triangle
+    from torchphysics.problem.spaces import Points
+
+    def v(self, params=Points.empty(), device="cpu"):
+        _, _, _, d1, _, d3 = self._construct_triangle(params, device=device)
+        return torch.abs(-d1[:, :1] * d3[:, 1:] + d1[:, 1:] * d3[:, :1])
+    Triangle._get_volume = v
+
+
+def _vol_sphere_34():
+    import numpy as np
+    from torchphysics.problem.domains.domain3D.sphere import Sphere
+    from torchphysics.problem.spaces import Points
+    Sphere._get_volume = lambda self, params=Points.empty(), device="cpu": (3.0 / 4.0 * np.pi * self.radius(params, device=device) ** 3).reshape(-1, 1)
+
+
+def _vol_par_signed():
+    from torchphysics.problem.domains.domain2D.parallelogram import Parallelogram
+    from torchphysics.problem.spaces import Points
+
+    def v(self, params=Points.empty(), device="cpu"):
+        _, _, _, d1, d2 = self._construct_parallelogram(params, device=device)
+        return d1[:, :1] * d2[:, 1:] - d1[:, 1:] * d2[:, :1]
+    Parallelogram._get_volume = v
+
+
+def _vol_cut_flag_ignored():
+    from torchphysics.problem.domains.domainoperations.cut import CutDomain
+    from torchphysics.problem.spaces import Points
+    CutDomain._get_volume = lambda self, params=Points.empty(), device="cpu": self.domain_a.volume(params, device=device)
+
+
+def _vol_density_floor():
+    import torch
+    from torchphysics.problem.domains.domain import Domain
+
+    def c(self, d, params):
+        volume = self.volume(params)
+        return int(torch.floor(d * volume)) + 0
+    Domain.compute_n_from_density = c
+
+
+def _box_union_swapped():
+    import torch
+    from torchphysics.problem.domains.domainoperations.union import UnionDomain
+    from torchphysics.problem.spaces import Points
+
+    def bb(self, params=Points.empty(), device="cpu"):
+        a = self.domain_a.bounding_box(params, device=device)
+        b = self.domain_b.bounding_box(params, device=device)
+        out = []
+        for i in range(self.space.dim):
+            out.append(max([a[2 * i], b[2 * i]]))
+            out.append(min([a[2 * i + 1], b[2 * i + 1]]))
+        return torch.tensor(out, device=device)
+    UnionDomain.bounding_box = bb
+
+
+def _box_circle_axis():
+    import torch
+    from torchphysics.problem.domains.domain2D.circle import Circle
+    from torchphysics.problem.spaces import Points
+
+    def bb(self, params=Points.empty(), device="cpu"):
+        c, r = self._compute_center_and_radius(params, device=device)
+        out = []
+        for i in range(self.dim):
+            rr = r if i == 0 else 0.9 * r
+            out.append(torch.min(c[:, i] - rr).item())
+            out.append(torch.max(c[:, i] + rr).item())
+        return torch.tensor(out, device=device)
+    Circle.bounding_box = bb
+
+
+def _box_rotate_two_corners():
+    import torch
+    from torchphysics.problem.domains.domainoperations.rotate import Rotate
+    from torchphysics.problem.spaces import Points
+
+    def bb(self, params=Points.empty(), device="cpu"):
+        db = self.domain.bounding_box(params=params, device=device)
+        tv = self.rotate_around(params).reshape(-1, self.space.dim)
+        rm = self.rotation_fn(params).reshape(-1, self.space.dim, self.space.dim)
+        tv2 = torch.repeat_interleave(tv, 2, 1)
+        db = db - tv2
+        rmin = torch.matmul(rm, db[:, ::2].unsqueeze(-1)).squeeze(-1)
+        rmax = torch.matmul(rm, db[:, 1::2].unsqueeze(-1)).squeeze(-1)
+        out = torch.zeros((len(rmin), 2 * self.space.dim))
+        out[:, ::2] = torch.min(rmin, rmax)
+        out[:, 1::2] = torch.max(rmin, rmax)
+        out = out + tv2
+        res = torch.zeros(2 * self.space.dim)
+        res[::2] = out[:, ::2].min(0)[0]
+        res[1::2] = out[:, 1::2].max(0)[0]
+        return res
+    Rotate.bounding_box = bb
+
+
+def _box_interval_first_row():
+    import torch
+    from torchphysics.problem.domains.domain1D.interval import Interval
+    from torchphysics.problem.spaces import Points
+
+    def bb(self, params=Points.empty(), device="cpu"):
+        lb = self.lower_bound(params, device=device).reshape(-1)
+        ub = self.upper_bound(params, device=device).reshape(-1)
+        return torch.stack((lb[0], ub[0]), dim=0)         # only the first parameter row
+    Interval.bounding_box = bb
+
+
+def _pe_circle_radius_kept():
+    from torchphysics.problem.domains.domain2D.circle import Circle
+
+    def call(self, **data):
+        return Circle(space=self.space, center=self.center.partially_evaluate(**data), radius=self.radius)
+    Circle.__call__ = call
+
+
+def _pe_nv_left_only():
+    from torchphysics.problem.domains.domainoperations.cut import CutDomain
+    old = CutDomain.__init__
+
+    def init(self, a, b, contained=False):
+        old(self, a, b, contained)
+        self.necessary_variables = a.necessary_variables.copy()
+    CutDomain.__init__ = init
+
+
+def _pe_product_keeps_vars():
+    from torchphysics.problem.domains.domainoperations.product import ProductDomain
+    old = ProductDomain.__init__
+
+    def init(self, a, b):
+        old(self, a, b)
+        self.necessary_variables = a.necessary_variables | b.necessary_variables
+    ProductDomain.__init__ = init
+
+
+def _pe_translate_inner_unbound():
+    from torchphysics.problem.domains.domainoperations.translate import Translate
+
+    def call(self, **data):
+        return Translate(domain=self.domain, translation=self.translate_fn.partially_evaluate(**data))
+    Translate.__call__ = call
+
+
+def _pe_mutates_original():
+    from torchphysics.problem.domains.domain1D.interval import Interval
+
+    def call(self, **data):
+        self.lower_bound.set_default(**data)
+        self.upper_bound.set_default(**data)
+        self.set_necessary_variables(self.lower_bound, self.upper_bound)
+        return self
+    Interval.__call__ = call
+
+
 REGISTRY = {
+    "pe_circle_radius_kept": _pe_circle_radius_kept, "pe_nv_left_only": _pe_nv_left_only,
+    "pe_product_keeps_vars": _pe_product_keeps_vars, "pe_translate_inner_unbound": _pe_translate_inner_unbound,
+    "pe_mutates_original": _pe_mutates_original,
+    "box_union_swapped": _box_union_swapped, "box_circle_axis": _box_circle_axis,
+    "box_rotate_two_corners": _box_rotate_two_corners, "box_interval_first_row": _box_interval_first_row,
+    "vol_circle_bd_pi_r": _vol_circle_bd, "vol_tri_no_half": _vol_tri_nohalf, "vol_sphere_34": _vol_sphere_34,
+    "vol_par_signed": _vol_par_signed, "vol_cut_flag_ignored": _vol_cut_flag_ignored, "vol_density_floor": _vol_density_floor,
     "smp_tri_mirror": _smp_tri_mirror, "smp_trans_twice": _smp_trans_twice, "smp_circle_bd_radius": _smp_circle_bd_radius,
     "smp_cut_inverted": _smp_cut_inverted,
     "geo_union_and": _geo_union_and, "geo_cut_nonot": _geo_cut_nonot, "geo_translate_sign": _geo_translate_sign,
@@ -353,6 +526,9 @@ REGISTRY = {
     "dl_target_perm": _dl_target_perm, "dl_len_floor": _dl_len_floor, "dl_agg_global_mean": _dl_agg_sum,
 }
 BY_PROPERTY = {
+    "C17": ["pe_circle_radius_kept", "pe_nv_left_only", "pe_product_keeps_vars", "pe_translate_inner_unbound", "pe_mutates_original"],
+    "C18": ["box_union_swapped", "box_circle_axis", "box_rotate_two_corners", "box_interval_first_row"],
+    "C10": ["vol_circle_bd_pi_r", "vol_tri_no_half", "vol_sphere_34", "vol_par_signed", "vol_cut_flag_ignored", "vol_density_floor"],
     "C01": ["smp_tri_mirror", "smp_trans_twice", "smp_circle_bd_radius", "smp_cut_inverted"],
     "C05": ["geo_union_and", "geo_cut_nonot", "geo_translate_sign", "geo_rotate_forward", "geo_param_row0", "geo_par_no_y"],
     "C12": ["pt_slices_off", "pt_join_order", "pt_repeat_interleave", "pt_eq_unordered", "sp_prod_nomerge"],
